@@ -464,8 +464,20 @@ def ob_find_invalid(run):
 
 # ------------------------------------------------------------------ compositions over grammar tokens
 class NullWeights:
+    """The chart returned by null_weight(): which grammar it belongs to, and an unknown number of entries (agenda() records no
+    update at or below its tolerance, so the chart may be EMPTY although the grammar has empty rules)."""
+
     def __init__(self, of):
         self.of = of
+        self.n = S.fresh("null_weight_entries", z3.IntSort())
+
+    def __pyvc_len__(self, interp):
+        interp.path.assume(self.n >= 0)
+        return I.Z(self.n)
+
+    def __pyvc_truth__(self, interp):
+        interp.path.assume(self.n >= 0)
+        return interp.path.decide(self.n > 0)
 
 
 class GTok:
